@@ -382,6 +382,12 @@ simcam_set(struct Camera* camera, struct CameraProperties* settings)
         return Device_Err;
     }
 
+    if (!bytes_of_type(settings->pixel_type)) {
+        LOGE("Unsupported pixel type: %s",
+             sample_type_to_string(settings->pixel_type));
+        return Device_Err;
+    }
+
     if (self->properties.input_triggers.frame_start.enable &&
         !settings->input_triggers.frame_start.enable) {
         // fire if disabling the software trigger while live
